@@ -3,10 +3,12 @@ package main
 import (
 	"encoding/hex"
 	"errors"
+	"fmt"
 	"math"
 	"strconv"
 	"strings"
 	"sync"
+	"unicode/utf16"
 
 	"github.com/robertkrimen/otto"
 	"github.com/robertkrimen/otto/ast"
@@ -142,6 +144,8 @@ func implC06(line string) string {
 			return errTok(err)
 		}
 		return strRes(c.fString.Call(u, v))
+	case "pintobj": // pintobj SA V S : parseInt(<string argument>, <scripted radix object>)  ->  value|call log
+		return pintobjImpl(c, f[1], f[2], f[3])
 	case "argobj": // argobj M R V S : Number.prototype.M.call(R, <scripted object>)  ->  result|call log
 		return argobjImpl(c, f[1], f[2], f[3], f[4])
 	case "nthis": // nthis M K : Number.prototype.M.call(<this of kind K>)
@@ -242,6 +246,58 @@ func jsItems(tok string) string {
 		}
 	}
 	return "[" + strings.Join(parts, ",") + "]"
+}
+
+// jsStr renders bytes (valid UTF-8) as a JavaScript string literal made of \u escapes only.
+func jsStr(b []byte) string {
+	var sb strings.Builder
+	sb.WriteByte('"')
+	for _, u := range utf16.Encode([]rune(string(b))) {
+		fmt.Fprintf(&sb, "\\u%04x", u)
+	}
+	sb.WriteByte('"')
+	return sb.String()
+}
+
+// pintobjImpl: the string argument is a primitive, an object with a logging toString ('S'), or an object
+// whose toString throws; the radix is a scripted object (valueOf 'v', toString 's').
+func pintobjImpl(c *vmCtx, sa, vs, ss string) string {
+	var arg string
+	switch {
+	case sa == "T":
+		arg = "{ toString: function () { log.push('S'); throw new SyntaxError('x'); } }"
+	case strings.HasPrefix(sa, "p:"), strings.HasPrefix(sa, "o:"):
+		b, err := hex.DecodeString(sa[2:])
+		if err != nil {
+			panic(err)
+		}
+		if sa[0] == 'p' {
+			arg = jsStr(b)
+		} else {
+			arg = "{ toString: function () { log.push('S'); return " + jsStr(b) + "; } }"
+		}
+	default:
+		return "bad-op"
+	}
+	src := `(function(){ var log = [], vi = 0, si = 0, vs = ` + jsItems(vs) + `, ss = ` + jsItems(ss) + `;
+  function pick(a, i) { var x = a[Math.min(i, a.length - 1)]; if (x === 'T') throw new SyntaxError('x'); if (x === 'o') return {}; return x; }
+  var o = { valueOf: function () { log.push('v'); return pick(vs, vi++); }, toString: function () { log.push('s'); return pick(ss, si++); } };
+  var res;
+  try { res = parseInt(` + arg + `, o); } catch (e) { res = 'throw:' + e.name; }
+  return [res, log.length ? log.join('') : '-']; })()`
+	v, err := c.vm.Run(src)
+	if err != nil {
+		return errTok(err)
+	}
+	res, _ := v.Object().Get("0")
+	lg, _ := v.Object().Get("1")
+	log, _ := lg.ToString()
+	if res.IsNumber() {
+		x, _ := res.ToFloat()
+		return h.F64Hex(x) + "|" + log
+	}
+	r, _ := res.ToString()
+	return r + "|" + log
 }
 
 // argobjImpl builds an object whose valueOf / toString log their calls and follow the scripts, calls the
